@@ -58,4 +58,25 @@ def isReset (i : Instr) : Bool := i.name == "reset"
 def isBarrier (i : Instr) : Bool := i.name == "barrier"
 def isPlaceholder (i : Instr) : Bool := i.name == "qpd_1q" || i.name == "qpd_2q"
 
+/-- distinct elements in order of first occurrence (Python dict / `unique_by_eq` order) -/
+def uniq {α : Type} [DecidableEq α] : List α → List α
+  | [] => []
+  | a :: as => a :: (uniq as).filter (fun b => b ≠ a)
+
+theorem mem_uniq {α : Type} [DecidableEq α] (x : α) : ∀ l : List α, x ∈ uniq l ↔ x ∈ l := by
+  intro l
+  induction l with
+  | nil => simp [uniq]
+  | cons a as ih =>
+    simp only [uniq, List.mem_cons, List.mem_filter, ih]
+    by_cases h : x = a <;> simp [h]
+
+theorem nodup_uniq {α : Type} [DecidableEq α] : ∀ l : List α, (uniq l).Nodup := by
+  intro l
+  induction l with
+  | nil => simp [uniq]
+  | cons a as ih =>
+    simp only [uniq, List.nodup_cons]
+    exact ⟨by simp [List.mem_filter], ih.filter _⟩
+
 end CKT
